@@ -91,6 +91,11 @@ CLAIMED = {
         note="Trusted: Lean kernel; hand model tied by trace replay; in-process worker (the multiprocessing boundary is not exercised); simulation scheduler; rate-limiting barriers time out immediately; distinctness of Hop-by-Hop identifiers is C15.",
         technique="Lean 4 proof (inductive invariant over all interleavings, deadlock-freedom by case analysis of quiescent states) + schedule-enumerating trace validation",
         design="4 C14"),
+    "C05": dict(
+        text="Lean: model of the outbound pipeline (send queue -> batch bounded by the send-buffer limit -> pending hand-over buffer -> send buffer -> socket) with actions submit (any thread) / flush (any limit) / transfer / write n (any partial length) / read event / disconnect; theorems for EVERY action sequence: conservation (written ++ send buffer ++ pending ++ queued encodings = concatenation of the accepted messages in acceptance order), hence the socket bytes are always a prefix of that concatenation (nothing duplicated, torn or interleaved) and equal it once the stages are empty (nothing lost); the accepted list is the list of submissions, so each submitter's messages keep their order; a batch is a prefix of the queue and the head message is always taken. Tie: the real client node under the simulation scheduler (library threads + 1..3 submitting threads, partial socket writes, inbound traffic, lowered batch limit, line-level hand-over in 30% of the runs); socket bytes cut at message boundaries and matched with the accepted messages; the operations on queue / hand-over buffer / socket replayed on the model.",
+        note="Trusted: Lean kernel; hand model tied by log replay; scripted FakeSock + substituted selector/threading/queue/time; message bytes abstracted to (number, length) in the driver; runs cut short by the scheduler budget are counted as inconclusive; SCTP variants and real sockets are not exercised; BlockingIOError on send marks the transport stopped (C08).",
+        technique="Lean 4 proof (conservation invariant over all action sequences) + scheduler-driven differential correspondence on the real threads",
+        design="4 C05"),
 }
 
 NOT_YET = {
